@@ -19,7 +19,7 @@ extra_checks = {"C01a": ["C10"], "C03b": ["C16"], "C06b": ["C07"], "C07a": ["C14
                 "C13j": ["C07"], "C02i": ["C09"], "C02j": ["C07"], "C09i": ["C16"], "C09j": ["C03"], "C14j": ["C07"], "C17j": ["C12"]}
 # seeds whose own property's check does not observe the mechanism; the named check is the one that decides
 decided_by = {"C09d": "C18", "C02d": "C12", "C09f": "C18", "C18e": "C09",
-              "C01g": "C03", "C03g": "C18", "C04h": "C18", "C09h": "C05", "C13h": "C07", "C02g": "C18", "C02h": "C19"}
+              "C11i": "C04", "C01g": "C03", "C03g": "C18", "C04h": "C18", "C09h": "C05", "C13h": "C07", "C02g": "C18", "C02h": "C19"}
 only = [a for a in sys.argv[1:] if not a.startswith("--")]
 for prop in sorted(os.listdir(SRC)):
     if not prop.startswith("C") or not os.path.isdir(os.path.join(SRC, prop)):
